@@ -1,7 +1,8 @@
 """C13 — unit alphabet: every library unit (vf/model.py LIB) + generated compound units.
 
 Each entry: name (key-safe), cpp (unit type), maker (quantity maker expression), ptmaker (point maker
-expression).  Generated units live in namespace g13 of PREAMBLE (file-scope code for every TU).
+expression), symbol (the library's unit symbol `au::symbols::x`, or None when the library defines none).
+Generated units live in namespace g13 of PREAMBLE (file-scope code for every TU).
 """
 from . import model
 
@@ -42,10 +43,10 @@ LIB_PT = {"kelvins": "au::kelvins_pt", "celsius": "au::celsius_pt", "fahrenheit"
 
 
 class U:
-    __slots__ = ("name", "cpp", "maker", "ptmaker", "lib")
+    __slots__ = ("name", "cpp", "maker", "ptmaker", "lib", "symbol")
 
-    def __init__(self, name, cpp, maker, ptmaker, lib):
-        self.name, self.cpp, self.maker, self.ptmaker, self.lib = name, cpp, maker, ptmaker, lib
+    def __init__(self, name, cpp, maker, ptmaker, lib, symbol=None):
+        self.name, self.cpp, self.maker, self.ptmaker, self.lib, self.symbol = name, cpp, maker, ptmaker, lib, symbol
 
     def __repr__(self):
         return self.name
@@ -54,7 +55,7 @@ class U:
 def all_units():
     out = []
     for u in model.LIB:
-        out.append(U(u.name, u.cpp, u.maker, LIB_PT.get(u.name, "au::QuantityPointMaker<%s>{}" % u.cpp), True))
+        out.append(U(u.name, u.cpp, u.maker, LIB_PT.get(u.name, "au::QuantityPointMaker<%s>{}" % u.cpp), True, u.symbol))
     for g in GEN:
         c = "g13::" + g
         out.append(U("gen." + g, c, "au::QuantityMaker<%s>{}" % c, "au::QuantityPointMaker<%s>{}" % c, False))
@@ -63,4 +64,7 @@ def all_units():
 
 # units on which operators (result types, acceptance, value sweeps) are explored; layout facts use all units
 THOROUGH_OPS_LIB = ["seconds", "radians", "fahrenheit", "bytes", "hertz", "miles", "pounds_force", "degrees"]
-QUICK_OPS = ["meters", "unos", "percent", "celsius", "gen.MPS", "gen.Feet3", "gen.KiloM", "gen.MperM"]
+QUICK_OPS = ["meters", "unos", "percent", "celsius", "gen.MPS", "gen.Feet3", "gen.KiloM", "gen.MperM", "gen.PiRad"]
+# quick tier: units on which the QuantityPoint operators are probed and swept (thorough: every ops unit);
+# celsius has a non-trivial origin, gen.MPS is a compound unit without a library point maker
+QUICK_PT = ["meters", "celsius", "gen.MPS"]
